@@ -332,7 +332,7 @@ def assertion_run_families(ctx, n_runs):
     TestSuiteAssertionCheckedCoverageFunction reports its failures here."""
     from concurrent.futures import ThreadPoolExecutor
 
-    jobs = [{"seed": ctx.rng.randrange(10**6), "n_tests": ctx.rng.choice([3, 4, 6])} for _ in range(n_runs)]
+    jobs = [{"seed": ctx.rng.randrange(10**6), "n_tests": ctx.rng.choice([3, 4, 6]), "witness": k == 0} for k in range(n_runs)]
     with ThreadPoolExecutor(max_workers=min(8, max(1, n_runs))) as ex:
         res = list(ex.map(lambda j: L.run_forked(_assert_child, j, 240), jobs))
     fams = []
@@ -492,6 +492,24 @@ def _assert_child(job):
                                      f"suite with cached results has coverage {final}, the same tests executed freshly {fresh_cov}"))
             except Exception as e:  # noqa: BLE001 - e.g. IndexError of the slicer on a corrupted position
                 failures.append((f"assertion_checked_coverage:raises:{type(e).__name__}", f"{type(e).__name__}: {e}"))
+            if job.get("witness"):
+                # corpus witness of the recorded finding: the backward slice of an assertion runs on into the
+                # test case merged before it, so the suite's coverage depends on the order of its tests
+                def fixed(code, expected=None):
+                    t = tc.TestCase()
+                    t.add_statement(stmt(f"var_0 = {alias}.{code}", "var_0"))
+                    if expected is not None:
+                        t.get_statement(-1).assertions.append(ass.ObjectAssertion("var_0", expected))
+                    return tcc.TestCaseChromosome(t)
+                try:
+                    c1 = cov_fn.compute_coverage(suite_of([fixed("alpha(3)"), fixed("delta(4, 2)", 2)]))
+                    c2 = cov_fn.compute_coverage(suite_of([fixed("delta(4, 2)", 2), fixed("alpha(3)")]))
+                    if c1 != c2:
+                        failures.append(("order:metric:assertion_checked_coverage",
+                                         f"suite [alpha(3); delta(4,2) with assertion] has assertion-checked coverage {c1}, "
+                                         f"the same tests in the other order {c2} (slice crosses the test boundary)"))
+                except Exception as e:  # noqa: BLE001
+                    failures.append((f"assertion_checked_coverage:raises:{type(e).__name__}", f"{type(e).__name__}: {e}"))
             # projections of freshly executed tests for the model comparison in the parent
             specs = []
             for c in chroms:
